@@ -186,6 +186,14 @@ def oracle_master(c):
 
 
 BAD_CASE = st.fixed_dictionaries({"text": soup.ANY_TEXT, "bad": st.sampled_from([b[0] for b in BAD])})
+# every kind of invalid argument x a fixed set of texts (a finite table: enumerated, so that no kind can go unvisited)
+BAD_TEXTS = ["", "T154N-R97W Sec 14: NE/4", "garbage", "NE/4 of Sec 1, T1N-R1E\nLots 1 - 3", "Township 154 North, Range 97 West, Section 14: N/2", "154-97 Sec",
+             "Sec 14", "T154-R97 Sec 1: ALL, less and except the wellbore", "\n\t ", "½¼§ – 中", "Lot 1(40.0), Lot 1", "T154N-R97W Sec 1 - 3: Lots 5 - 1"]
+
+
+def enum_bad(tier):
+    return [{"text": {"kind": "fixed", "text": tx}, "bad": b[0]} for b in BAD for tx in BAD_TEXTS]
+
 MASTER_CASE = st.fixed_dictionaries({"text": soup.ANY_TEXT, "which": st.sampled_from(["ns", "ew"])})
 
 # volume: a process may see any number of distinct Twp/Rge/Sec strings ------------------------------------------------------
@@ -229,9 +237,12 @@ SUBS = [
     Sub("tract", oracle_tract, strategy=lambda tier: TRACT_CASE, nontrivial=lambda c: bool(c["cfg"]) or len(c["text"]["text"]) > 10,
         classes=tract_classes, render=lambda c: {"text": c["text"]["text"], "config": configs.to_text(c["cfg"], c["style"]), "entry": c["entry"]},
         n={"quick": 1500, "thorough": 10000}, shards={"quick": 4, "thorough": 16}, text_keys=("text",)),
-    Sub("invalid_args", oracle_bad, strategy=lambda tier: BAD_CASE, classes=lambda c: [c["bad"]],
-        render=lambda c: {"bad": c["bad"], "text": c["text"]["text"]}, n={"quick": 300, "thorough": 3000}, shards={"quick": 2, "thorough": 4},
+    Sub("invalid_args", oracle_bad, enumerate=enum_bad, classes=lambda c: [c["bad"]], exhaustive=True,
+        render=lambda c: {"bad": c["bad"], "text": c["text"]["text"]}, shards={"quick": 2, "thorough": 2},
         text_keys=("text",), essential=tuple(b[0] for b in BAD)),
+    Sub("invalid_args_random_text", oracle_bad, strategy=lambda tier: BAD_CASE, classes=lambda c: [c["bad"]],
+        render=lambda c: {"bad": c["bad"], "text": c["text"]["text"]}, n={"quick": 300, "thorough": 3000}, shards={"quick": 2, "thorough": 4},
+        text_keys=("text",)),
     Sub("master_config", oracle_master, strategy=lambda tier: MASTER_CASE, classes=lambda c: [c["which"]],
         render=lambda c: {"which": c["which"], "text": c["text"]["text"]}, n={"quick": 150, "thorough": 1500}, shards={"quick": 2, "thorough": 4},
         text_keys=("text",)),
